@@ -18,6 +18,8 @@ RULE = ('tables of 2-6 columns x 20-300 rows: 1-3 base columns (normal / uniform
         'integer-valued, random location and scale 1e-3..1e3) plus derived columns: exact duplicate, sign flip, '
         'affine image a*x+b, sum of two columns, constant, near-constant (c*(1+1e-9 noise) or constant except '
         '1-2 rows), noisy copy; column labels are shuffled strings or ints; crossed with every marginal '
+        'a quarter of the tables are stored in narrow / mixed dtypes (float32, float16, int8/16/32, uint8, one float32 '
+        'column beside float64) and a column kind puts 1-3 observations at +4.5..+5.1 fitted sd; '
         'configuration form: class, qualified-name string, instance, per-column dict (complete / partial), '
         'default Univariate (sparingly) over Gaussian/Beta/Gamma/Uniform/GaussianKDE; every third table is fitted on '
         'an estimator instance that was fitted before on 1-2 other tables of the same width (refit history: same labels, '
@@ -114,6 +116,62 @@ def outlier_column(rng, nr, src):
     return a * y + b
 
 
+def upper_tail_column(rng, nr, src):
+    """roughly normal column (correlated with src) with 1-3 observations at +4.5 ... +5.1 FITTED standard deviations:
+    far in the upper tail but still inside the clip bounds (cdf in (1 - 4e-6, 1 - 1.2e-7))."""
+    n = len(src)
+    y = 0.6 * _standardised(nr, src) + 0.8 * nr.randn(n)
+    y = (y - y.mean()) / y.std()
+    m = rng.choice([1, 2, 3])
+    zmax = 0.9 * (n - 1) / math.sqrt(n) / math.sqrt(m)
+    rows = rng.sample(range(n), m)
+    for r in rows:
+        z = min(rng.uniform(4.5, 5.1), zmax)
+        y[r] = z / math.sqrt(max(1e-9, 1.0 - m * z * z / n))
+    a = rng.choice([1.0, 3.0, 10.0])
+    b = rng.choice([0.0, 20.0, -3.0])
+    return a * y + b
+
+
+NARROW_DTYPES = ('float32', 'float16', 'int8', 'int16', 'int32', 'uint8')
+_INT_SCALE = {'int8': (18.0, 0.0), 'uint8': (18.0, 110.0), 'int16': (1500.0, 0.0), 'int32': (1e5, 0.0)}
+
+
+def cast_column(c, dt):
+    """the column as it would be STORED with dtype `dt` (integers: standardised, scaled into the range, rounded)."""
+    c = np.asarray(c, dtype=float)
+    if dt in ('float64', 'int64'):
+        return c if dt == 'float64' else np.round(c).astype('int64')
+    if dt in ('float32', 'float16'):
+        if dt == 'float16' and np.max(np.abs(c)) > 6e4:          # float16 overflows at 65504
+            c = c / (np.max(np.abs(c)) / 1e3)
+        return c.astype(dt)
+    s, off = _INT_SCALE[dt]
+    sd = float(np.std(c))
+    if not sd > 0:
+        v = np.full(len(c), off + float(np.clip(np.round(c[0]), -100, 100)))
+    else:
+        v = np.round((c - float(np.mean(c))) / sd * s + off)
+    info = np.iinfo(dt)
+    return np.clip(v, info.min, info.max).astype(dt)
+
+
+def gen_dtypes(rng, k):
+    """storage dtypes of the training table: one narrow dtype for the whole table, or a mixed frame."""
+    r = rng.random()
+    if r < 0.6:
+        return [rng.choice(NARROW_DTYPES)] * k
+    if r < 0.8:                                                 # one float32 column beside float64
+        d = ['float64'] * k
+        d[rng.randrange(k)] = 'float32'
+        return d
+    return [rng.choice(('float64', 'int64') + NARROW_DTYPES) for _ in range(k)]
+
+
+def dtype_names(cols):
+    return [str(np.asarray(c).dtype) for c in cols]
+
+
 def gen_table(rng, nr, quick_rows=False):
     """-> (names, dict name -> ndarray, kinds list).  Column order = list order (not sorted)."""
     k = rng.choice([2, 3, 3, 4, 4, 5, 6])
@@ -128,7 +186,7 @@ def gen_table(rng, nr, quick_rows=False):
     while len(cols) < k:
         src = cols[rng.randrange(len(cols))]
         d = rng.choice(['dup', 'neg', 'affine', 'affine', 'sum', 'const', 'const', 'nearconst', 'nearconst',
-                        'noisy', 'base', 'tinyspread', 'tinyspread', 'outlier'])
+                        'noisy', 'base', 'tinyspread', 'tinyspread', 'outlier', 'uppertail'])
         if d == 'dup':
             x = src.copy()
         elif d == 'neg':
@@ -156,6 +214,8 @@ def gen_table(rng, nr, quick_rows=False):
             x = tiny_spread_column(rng, nr, src)
         elif d == 'outlier':
             x = outlier_column(rng, nr, src)
+        elif d == 'uppertail':
+            x = upper_tail_column(rng, nr, src)
         else:
             kd, x = _base_column(rng, nr, n)
             d = 'base:' + kd
@@ -397,6 +457,10 @@ def run(ctx, lean):
     bit_tot = bit_eq = 0
     for t in range(ntables):
         names, cols, kinds = gen_table(rng, nr, quick_rows=(ctx.scale == 1 and t % 3 != 0))
+        if t % 4 == 2:                       # the training table is stored in narrow / mixed dtypes
+            cols = [cast_column(c, dt) for c, dt in zip(cols, gen_dtypes(rng, len(cols)))]
+        for dt in sorted(set(dtype_names(cols))):
+            ctx.count('dtype:' + dt)
         allow_default = ndefault < 2 * ctx.scale and len(names) <= 3
         spec = gen_config(rng, names, allow_default)
         if spec[0] == 'default' or (spec[0] == 'dict' and len(spec[1]) < len(names)):
@@ -416,6 +480,8 @@ def run(ctx, lean):
         else:
             ctx.count('history:first-fit')
         inp = {'names': names, 'kinds': kinds, 'config': spec, 'n': len(cols[0])}
+        if set(dtype_names(cols)) != {'float64'}:
+            inp['dtypes'] = dtype_names(cols)
         if hist is not None:
             inp['refit_history'] = {'rows': [len(h[0]) for h in hist['tables']], 'containers': hist['containers'],
                                     'last_is_array': hist['as_array']}
@@ -521,9 +587,53 @@ def run(ctx, lean):
 RIDGE_TOL = 1e-6       # "up to a regularisation ridge of order 1e-7"
 
 
+DTYPE_PRIORITY = ('float16', 'int8', 'uint8', 'int16', 'int32', 'float32')
+
+
 def oracle(names, cols, spec, hist=None):
-    """The property on the real code (the fit under test is the LAST one of the history).
-    -> list of (class, observed, required)."""
+    """The property on the real code -> list of (class, observed, required).  A failure that occurs on a table stored
+    in a narrow dtype but NOT on the same values stored as float64 is reported under the cause
+    `fit:storage-dtype-dependent:<dtype of the offending column>:<inaccurate|degenerate>` (inaccurate = entries finite
+    but not the Pearson correlation of the float64 scores; degenerate = NaN / constant scores, NaN samples or
+    densities, exceptions).  The class `fit:entry-not-pearson-of-clipped-scores:narrow-dtype` is never folded: there
+    the entries are not even the Pearson correlation of the cdf values the marginals return for the stored values."""
+    res = _oracle_core(names, cols, spec, hist)
+    dts = dtype_names(cols)
+    narrow = [d for d in DTYPE_PRIORITY if d in dts]
+    if not res or not narrow:
+        return res
+    keep = [r for r in res if r[0].endswith(':narrow-dtype') or 'fit-history' in r[0]]
+    rest = [r for r in res if r not in keep]
+    if not rest:
+        return res
+    res64 = {r[0] for r in _oracle_core(names, [np.asarray(c).astype(np.float64) for c in cols], spec, hist)}
+    out, folded = list(keep), {}
+    by_repr = {repr(nm): d for nm, d in zip(names, dts)}
+    for cls, obs, req in rest:
+        base = cls.replace(':cdf-at-storage-precision', '')
+        if cls in res64 or base in res64:
+            out.append((cls, obs, req))
+            continue
+        kind = 'inaccurate' if cls.startswith('fit:entry-not-pearson') else 'degenerate'
+        prio = ('float16', 'float32', 'int8', 'uint8', 'int16', 'int32') if kind == 'inaccurate' else DTYPE_PRIORITY
+        cand = []
+        if isinstance(obs, dict):
+            cand = list(obs.get('offending_dtypes') or [])
+            if not cand:
+                cand = [by_repr.get(obs.get(key)) for key in ('column', 'i', 'j')] + \
+                    [by_repr.get(c) for c in (obs.get('columns') or [])]
+        cand = [d for d in prio if d in cand] or [d for d in prio if d in dts]
+        folded.setdefault(f'fit:storage-dtype-dependent:{cand[0]}:{kind}', []).append((cls, obs))
+    for key, items in folded.items():
+        out.append((key, {'underlying_classes': sorted({c for c, _ in items}), 'first_observed': items[0][1],
+                          'dtypes': dts},
+                    'the property holds whatever the storage dtype of the training table (the same values stored as '
+                    'float64 satisfy it)'))
+    return out
+
+
+def _oracle_core(names, cols, spec, hist=None):
+    """(the fit under test is the LAST one of the history)"""
     out = []
     try:
         X, model, calls = fit_real(names, cols, spec, hist=hist)
@@ -645,19 +755,37 @@ def oracle(names, cols, spec, hist=None):
                         continue
                     else:
                         r = float((Z[:, i] * Z[:, j]).sum() / (ss[i] * ss[j]))
-                    tol = RIDGE_TOL + 1e-9 * (kap[i] ** 2 + kap[j] ** 2) if not (sconst[i] or sconst[j]) else RIDGE_TOL
+                    # off-diagonal entries carry no ridge: 1e-9 sized by the conditioning of the centring
+                    base = RIDGE_TOL if i == j else 1e-9
+                    tol = base + 1e-9 * (kap[i] ** 2 + kap[j] ** 2) if not (sconst[i] or sconst[j]) else RIDGE_TOL
                     err = abs(r - float(C[i, j]))
                     if err > tol and (worst is None or err > worst[0]):
                         worst = (err, i, j, r)
             if worst is not None:
                 err, i, j, r = worst
-                out.append(('fit:entry-not-pearson-of-clipped-scores',
-                            {'i': repr(names[i]), 'j': repr(names[j]), 'real': float(C[i, j]),
+                dts = dtype_names(cols)
+                narrow = [d for d in dts if d not in ('float64', 'int64')]
+                sub, sens = '', []
+                if narrow:
+                    # do the entries at least equal the Pearson correlation of the clipped cdf values that the
+                    # marginals return for the values AS STORED (promoted to float64)?
+                    sub = ':narrow-dtype'
+                    Sn = reference_scores(model, X, native=True)
+                    if np.isfinite(Sn).all() and Sn[:, i].max() > Sn[:, i].min() and Sn[:, j].max() > Sn[:, j].min():
+                        Zn = Sn - Sn.mean(axis=0)
+                        rn = float((Zn[:, i] * Zn[:, j]).sum() / math.sqrt((Zn[:, i] ** 2).sum() * (Zn[:, j] ** 2).sum()))
+                        if abs(rn - float(C[i, j])) <= (RIDGE_TOL if i == j else 1e-9) + 1e-9 * (kap[i] ** 2 + kap[j] ** 2):
+                            sub = ':cdf-at-storage-precision'
+                    sens = [dts[c] for c in (i, j) if not np.array_equal(Sn[:, c], Sref[:, c])]
+                out.append(('fit:entry-not-pearson-of-clipped-scores' + sub,
+                            {'i': repr(names[i]), 'j': repr(names[j]), 'real': float(C[i, j]), 'dtypes': dts,
+                             'offending_dtypes': sens if narrow else [],
                              'pearson_of_clipped_scores': r, 'abs_diff': err,
                              'score_i_range': [float(Sref[:, i].min()), float(Sref[:, i].max())],
                              'score_j_range': [float(Sref[:, j].min()), float(Sref[:, j].max())]},
-                            'each entry = Pearson correlation of the two columns after fitted marginal cdf, clip to '
-                            '[EPSILON, 1-EPSILON], standard normal quantile (NaN -> 0; diagonal up to the ridge)'))
+                            'each entry = Pearson correlation (float64) of the two columns after fitted marginal cdf '
+                            '(evaluated on the float64 values), clip to [EPSILON, 1-EPSILON], standard normal quantile '
+                            '(NaN -> 0; diagonal up to the ridge), whatever the storage dtype of the table'))
     # sampling / density after regularisation
     try:
         with np.errstate(all='ignore'), warnings.catch_warnings():
@@ -667,7 +795,9 @@ def oracle(names, cols, spec, hist=None):
             out.append(('sample:shape', {'columns': repr(list(smp.columns)), 'rows': len(smp)},
                         '5 rows, training columns in order'))
         elif np.isnan(smp.to_numpy(dtype=float)).any():
-            out.append(('sample:nan', smp.to_numpy(dtype=float).tolist(), 'sampling works: no NaN'))
+            arr = smp.to_numpy(dtype=float)
+            out.append(('sample:nan', {'columns': [repr(nm) for nm, bad_ in zip(names, np.isnan(arr).any(axis=0)) if bad_],
+                                       'sample': arr.tolist()}, 'sampling works: no NaN'))
     except Exception as e:  # noqa
         out.append(('sample:raises', f'{type(e).__name__}: {str(e)[:160]}', 'sampling works after regularisation'))
     try:
@@ -675,7 +805,10 @@ def oracle(names, cols, spec, hist=None):
             warnings.simplefilter('ignore')
             p = np.asarray(model.probability_density(X.iloc[:5]), dtype=float)
         if p.shape != (5,) or np.isnan(p).any() or (p < 0).any():
-            out.append(('pdf:nan', p.tolist(), 'density evaluation works: 5 non-negative numbers'))
+            with np.errstate(all='ignore'):
+                Sn_ = reference_scores(model, X, native=True)
+            out.append(('pdf:nan', {'columns': [repr(nm) for nm, bad_ in zip(names, np.isnan(Sn_).any(axis=0)) if bad_],
+                                    'density': p.tolist()}, 'density evaluation works: 5 non-negative numbers'))
     except Exception as e:  # noqa
         sub = (':not-psd' + cause) if 'positive semidefinite' in str(e) else ''
         out.append(('pdf:raises' + sub, f'{type(e).__name__}: {str(e)[:160]}',
@@ -686,14 +819,16 @@ def oracle(names, cols, spec, hist=None):
 PROP_EPS = float(np.finfo(np.float32).eps)     # the property's clip: copulas.utils.EPSILON = 2^-23 ("order 1e-7")
 
 
-def reference_scores(model, X):
-    """fitted marginal cdf -> clip [eps, 1-eps] -> standard normal quantile, per TRAINING column in order;
-    independent of GaussianMultivariate._transform_to_normal."""
+def reference_scores(model, X, native=False):
+    """fitted marginal cdf (evaluated on the float64 values; `native`: on the values as stored, result promoted to
+    float64) -> clip [eps, 1-eps] -> standard normal quantile in float64, per TRAINING column in order; independent
+    of GaussianMultivariate._transform_to_normal."""
     from scipy import stats
     out = []
     with np.errstate(all='ignore'):
         for nm, u in zip(list(X.columns), model.univariates):
-            uu = np.asarray(u.cdf(X[nm].to_numpy()), dtype=float)
+            v = X[nm].to_numpy()
+            uu = np.asarray(u.cdf(v if native else v.astype(np.float64))).astype(np.float64)
             out.append(stats.norm.ppf(np.clip(uu, PROP_EPS, 1.0 - PROP_EPS)))
     return np.column_stack(out)
 
@@ -729,7 +864,8 @@ def marg_name(u):
 
 
 def payload_of(names, cols, spec, kinds=None, hist=None):
-    d = {'names': list(names), 'cols': [[float(v) for v in c] for c in cols], 'config': spec, 'kinds': kinds}
+    d = {'names': list(names), 'cols': [[float(v) for v in c] for c in cols], 'config': spec, 'kinds': kinds,
+         'dtypes': dtype_names(cols)}
     if hist is not None:
         d['refit_history'] = {'as_array': bool(hist.get('as_array')), 'containers': hist.get('containers'),
                               'tables': [[[float(v) for v in c] for c in h] for h in hist['tables']]}
@@ -739,6 +875,8 @@ def payload_of(names, cols, spec, kinds=None, hist=None):
 def from_payload(p):
     names = [n for n in p['names']]
     cols = [np.array(c, dtype=float) for c in p['cols']]
+    if p.get('dtypes'):
+        cols = [c.astype(dt) for c, dt in zip(cols, p['dtypes'])]
     hist = None
     if p.get('refit_history') is not None:
         h = p['refit_history']
@@ -803,6 +941,44 @@ def fixed_probes():
         (['p', 'q'], [p, 2 * p + 0.5 * b], ['class', 'BetaUnivariate'], ['probe:beta-offset']),
         (['a', 'k2', 'd', 'k1'], _binary_beta_probe(), ['inst', 'BetaUnivariate'], ['probe:binary-beta']),
     ] + tiny_and_outlier_probes()
+
+
+def dtype_probes():
+    """narrow / mixed storage dtypes with a few far-upper-tail observations (z ~ 4.5 - 5.7), Gaussian / Uniform / KDE."""
+    r = np.random.RandomState(3)
+    g_, u_, k_ = ['class', 'GaussianUnivariate'], ['class', 'UniformUnivariate'], ['str', 'GaussianKDE']
+    n = 120
+    g = r.normal(size=n)
+    h = 0.4 * g + r.normal(size=n)
+    g[:3] = [4.9, 5.3, 5.6]
+    h[:3] = [5.1, 4.8, 5.7]
+    k = r.normal(size=n)
+    p = r.poisson(20, size=n).astype(float)
+    q = p + r.poisson(5, size=n)
+    p[:3] = [52, 55, 58]
+    q[:3] = [60, 57, 66]
+    rr = r.poisson(7, size=n).astype(float)
+    t = r.uniform(0.5, 20.0, size=n)
+    x = -1e-6 * t
+    x[0] = -1.0
+    y = -1e-6 * (0.7 * t + 0.3 * r.uniform(0.5, 20.0, size=n))
+    y[1] = -1.0
+    w = r.normal(size=n) + 0.1 * t
+
+    def cast(cols, dts):
+        return [np.asarray(c, dtype=float).astype(d) for c, d in zip(cols, dts)]
+    return [
+        (['g', 'h', 'k'], cast([g, h, k], ['float32'] * 3), g_, ['probe:dtype-float32-right-tail']),
+        (['g', 'h', 'k'], cast([g, h, k], ['float64', 'float32', 'float64']), g_, ['probe:dtype-mixed-float32']),
+        (['g', 'h', 'k'], cast([g, h, k], ['float32'] * 3), k_, ['probe:dtype-float32-kde']),
+        (['p', 'q', 'r'], cast([p, q, rr], ['int16'] * 3), g_, ['probe:dtype-int16-counts']),
+        (['p', 'q', 'r'], cast([p, q, rr], ['uint8', 'int8', 'int32']), g_, ['probe:dtype-small-ints']),
+        (['x', 'y', 'w'], cast([x, y, w], ['float32'] * 3), u_, ['probe:dtype-float32-packed-top-uniform']),
+        (['g', 'h', 'k'], cast([g, h, k], ['float16'] * 3), g_, ['probe:dtype-float16']),
+        (['g', 'h'], cast([1500.0 + 100.0 * g, h], ['float16'] * 2), g_, ['probe:dtype-float16-large-values']),
+        (['p', 'q'], cast([np.clip(np.round(-30.0 + 20.0 * g), -100, 40), q], ['int8', 'int8']), u_,
+         ['probe:dtype-int8-uniform-range-overflow']),
+    ]
 
 
 def history_probes():
@@ -882,7 +1058,7 @@ def search(ctx, deep):
     checked = found = 0
     ndefault = 0
     seen_cls = set()
-    probes = fixed_probes() + history_probes()
+    probes = fixed_probes() + history_probes() + dtype_probes()
     for t in range(len(probes) + ntables):
         hist = None
         if t < len(probes):
@@ -890,6 +1066,9 @@ def search(ctx, deep):
             hist = probes[t][4] if len(probes[t]) > 4 else None
         else:
             names, cols, kinds = gen_table(rng, nr, quick_rows=not deep)
+            if rng.random() < 0.3:           # narrow / mixed storage dtypes
+                cols = [cast_column(c, dt) for c, dt in zip(cols, gen_dtypes(rng, len(cols)))]
+                ctx.count('search:dtype:' + '+'.join(sorted(set(dtype_names(cols)))))
             allow_default = ndefault < (24 if deep else 1) and len(names) <= 3
             spec = gen_config(rng, names, allow_default)
             if spec[0] == 'default' or (spec[0] == 'dict' and len(spec[1]) < len(names)):
